@@ -17,12 +17,13 @@ required must be rejected with an exception and yield no bytes."""
 
 import io
 import math
+import re
 import sys
 import traceback
 
 from mc import core, graphprog as gp
 from mc.engines import progenum
-from mc.oracles import scgf, xgraph as xg
+from mc.oracles import scgf, xgraph as xg, zoo
 from mc.checks import c01
 
 MODE = 'nrt'
@@ -43,6 +44,8 @@ class RealBackend:
         self.plan = list(plan) if plan is not None else None
         self.env = env
         self.stamp = 0
+        self.offsetout_kr = (prog.get('fault') or {}).get('value') == \
+            'offsetout-kr'
 
     def params(self, variant):
         return self.env
@@ -63,6 +66,17 @@ class RealBackend:
             # input; the library must either refuse that or write it well
             c = self.m['osc'].SinOsc
             return (c.ar(t), c.ar(t))
+        if value == 'ctuple':
+            # a pair of numbers that are constants of the graph anyway: two
+            # stateful (never removed) units hold them
+            n = self.m['noise'].LFNoise0
+            n.kr(t)
+            n.kr(t - 1.0)
+            return (t, t - 1.0)
+        if value == 'huge':
+            # a number without a single-precision representation: the
+            # definition cannot be written
+            return 1e39
         raise ValueError(value)
 
     def flatten(self, v):
@@ -83,6 +97,22 @@ class RealBackend:
     def inn(self, rate, bus):
         c = self.m['io'].In
         return c.ar(bus, 2) if rate == 'ar' else c.kr(bus, 2)
+
+    def bin(self, kind, bus, lag):
+        io = self.m['io']
+        if kind == 'InFeedback':
+            return io.InFeedback.ar(bus, 2)
+        if kind == 'LagIn':
+            return io.LagIn.kr(bus, 2, lag)
+        if kind == 'InTrig':
+            return io.InTrig.kr(bus, 2)
+        if kind == 'LocalIn.ar':
+            return io.LocalIn.ar(2, bus)
+        if kind == 'LocalIn.kr':
+            return io.LocalIn.kr(2, bus)
+        if kind == 'SoundIn':
+            return io.SoundIn.ar(bus)
+        raise ValueError(kind)
 
     def pan(self, x, level):
         return self.m['pan'].Pan2.ar(x, 0.5, level)
@@ -136,7 +166,7 @@ class RealBackend:
     def ifft(self, chain, winsize):
         return self.m['fft'].IFFT.ar(chain, 0, winsize)
 
-    def out(self, bus, chans, force=None):
+    def out(self, bus, chans, force=None, cls='Out', xfade=None):
         if force == 'ar':
             rate = 'ar'
         elif self.plan:
@@ -144,12 +174,15 @@ class RealBackend:
         else:
             # faulted programs have no reference plan: control-rate outputs
             # accept every signal rate
-            rate = 'kr'
-        c = self.m['io'].Out
-        if rate == 'ar':
-            c.ar(bus, chans)
+            rate = 'kr' if cls != 'OffsetOut' or self.offsetout_kr else 'ar'
+        c = getattr(self.m['io'], cls)
+        f = c.ar if rate == 'ar' else c.kr
+        if cls == 'XOut':
+            f(bus, xfade, chans)
+        elif cls == 'LocalOut':
+            f(chans)
         else:
-            c.kr(bus, chans)
+            f(bus, chans)
 
 
 def make_xfunction(prog, plan):
@@ -174,9 +207,90 @@ def make_xfunction(prog, plan):
 
         def graph(freq=defaults):
             run({'freq': freq})
+    elif variant.startswith('named'):
+        # def graph(p0=0.25, p1: 'ir' = 0.5, ...)
+        spec = xg.param_spec(variant)
+        sig = ', '.join(
+            f'{nm}={dv!r}' if kind == 'kr' else f'{nm}: {kind!r} = {dv!r}'
+            for nm, dv, kind in spec)
+        env = ', '.join(f'{nm!r}: {nm}' for nm, _, _ in spec)
+        ns = {'run': run}
+        exec(f'def graph({sig}):\n    run({{{env}}})\n', ns)
+        graph = ns['graph']
+    elif variant == 'lag':
+        def graph(freq=(0.5, 2.0, 4.0), gate=1.0, amp=0.25):
+            run({'freq': freq, 'gate': gate, 'amp': amp})
+    elif variant == 'lag20' or variant.startswith('lagarr'):
+        defaults = xg.param_spec(variant)[0][1]
+        if len(defaults) == 1:
+            defaults = defaults[0]
+
+        def graph(freq=defaults):
+            run({'freq': freq if isinstance(freq, list) else [freq]})
+    elif variant == 'rates':
+        def graph(a=1.0, b: 'kr' = 2.0, c=3.0, d: 'ir' = 4.0,
+                  e: 'ar' = 5.0):
+            run({'a': a, 'b': b, 'c': c, 'd': d, 'e': e})
+    elif variant == 'prepend':
+        def graph(x, y, freq=2.0, gate=1.0):
+            if not (isinstance(x, float) and x == 0.5 and
+                    isinstance(y, float) and y == 7.0):
+                raise AssertionError(
+                    f'prepended values arrived as {x!r}, {y!r}')
+            run({'freq': freq, 'gate': gate})
+    elif variant == 'wrap':
+        from sc3.synth.synthdef import SynthDef
+
+        def graph(gate=1.0):
+            got = {}
+
+            def inner(z, freq=2.0, a: 'ar' = 0.25):
+                if not (isinstance(z, float) and z == 3.0):
+                    raise AssertionError(f'prepended value arrived as {z!r}')
+                got.update(freq=freq, a=a)
+            SynthDef.wrap(inner, rates=['ir'], prepend=[3.0])
+            run({'gate': gate, 'freq': got['freq'], 'a': got['a']})
+    elif variant == 'manual':
+        from sc3.synth.ugens import inout as io
+
+        def graph():
+            io.Control.add_name('freq')
+            freq = io.Control.kr([0.5, 2.0])
+            io.AudioControl.add_name('a')
+            a = io.AudioControl.ar(0.25)
+            io.LagControl.add_name('l')
+            lg = io.LagControl.kr([4.0, 8.0], [0.1, 0.2])
+            io.Control.add_name('i')
+            i = io.Control.ir(0.125)
+            run({'freq': freq, 'a': a, 'l': lg, 'i': i})
+    elif variant == 'defaults':
+        def graph(nd, n=None, b=True, k=3):
+            run({'nd': nd, 'n': n, 'b': b, 'k': k})
+    elif variant == 'specs':
+        def graph(freq=None, amp=None, gate=1):
+            run({'freq': freq, 'amp': amp, 'gate': gate})
     else:
         raise ValueError(variant)
     return graph
+
+
+def xdef_kwargs(prog):
+    """The SynthDef constructor options that belong to a parameter variant
+    (fresh objects on every call: the library may modify the lists)."""
+    variant = prog.get('params', 'none')
+    if variant == 'lag':
+        return {'rates': [0.5, None, 0.125]}
+    if variant == 'lag20' or variant.startswith('lagarr'):
+        return {'rates': [0.5]}
+    if variant == 'rates':
+        return {'rates': ['ir', 'tr', 'ar', 'kr']}
+    if variant == 'prepend':
+        return {'prepend': [0.5, 7.0]}
+    if variant == 'specs':
+        from sc3.synth.spec import ControlSpec
+        return {'metadata': {'specs': {
+            'freq': ControlSpec(20, 20000, 'exp', 0, 440)}}}
+    return {}
 
 
 # --------------------------------------------------------------------------
@@ -188,13 +302,13 @@ def _where(e):
     return next((f.name for f in reversed(tb) if '/sc3/' in f.filename), '?')
 
 
-def compile_def(name, graph, variants=None):
+def compile_def(name, graph, variants=None, **options):
     """-> ('ok', synthdef, bytes) | ('raised', stage, exception, leftovers).
     leftovers: bytes the library handed out although it raised."""
     from sc3.base.main import main
     from sc3.synth.synthdef import SynthDef
     try:
-        sd = SynthDef(name, graph, variants=variants)
+        sd = SynthDef(name, graph, variants=variants, **options)
     except Exception as e:
         main._current_synthdef = None
         return ('raised', 'build', e, None)
@@ -236,7 +350,11 @@ def _desc_summary(desc):
         ctl.append([c.name, c.index, c.rate, dv])
 
     def io_(lst):
-        return [[x.rate, x.channels, _norm_start(x.starting_channel),
+        # LocalIn / LocalOut have no bus: their "starting channel" is not a
+        # fact of the definition (don't-care)
+        return [[x.rate, x.channels,
+                 _norm_start(x.starting_channel)
+                 if x.type.__name__ not in ('LocalIn', 'LocalOut') else '-',
                  x.type.__name__] for x in lst]
     return {'name': desc.name, 'control_names': list(desc.control_names),
             'controls': ctl, 'has_gate': bool(desc.has_gate),
@@ -271,7 +389,9 @@ def expected_desc(d):
         if cls not in IN_CLASSES and cls not in OUT_FIXED:
             continue
         start = '?'
-        if u['inputs']:
+        if cls in ('LocalIn', 'LocalOut'):
+            start = '-'
+        elif u['inputs']:
             b = u['inputs'][0]
             if b[0] == 'c':
                 start = float(d['constants'][b[1]])
@@ -293,8 +413,19 @@ def expected_desc(d):
             'has_gate': 'gate' in names, 'inputs': ins, 'outputs': outs}
 
 
+def _nan_free(x):
+    """NaN (a legal parameter default) compares equal to itself."""
+    if isinstance(x, float) and x != x:
+        return 'nan'
+    if isinstance(x, (list, tuple)):
+        return [_nan_free(y) for y in x]
+    return x
+
+
 def _cmp_desc(tag, want, got):
     dis = []
+    want = {k: _nan_free(v) for k, v in want.items()}
+    got = {k: _nan_free(v) for k, v in got.items()}
     if got['name'] != want['name']:
         dis.append((f'reader-name-differs', want['name'], got['name'], tag))
     if sorted(got['control_names']) != sorted(want['control_names']):
@@ -487,7 +618,7 @@ def check_x(prog):
     except xg.IllTyped:
         return [], False, None, True
     graph = make_xfunction(prog, ref['plan'])
-    res = compile_def(prog['name'], graph)
+    res = compile_def(prog['name'], graph, **xdef_kwargs(prog))
     if res[0] == 'raised':
         e = res[2]
         kind = f'valid-graph-rejected-{type(e).__name__}@{_where(e)}'
@@ -501,6 +632,13 @@ def check_x(prog):
         dis += xg.compare(prog, ref, d)
     rd, summ = reader_check(sd, data, d)
     dis += rd
+    dis += as_written(prog, ref, summ)
+    return dis, ref['nontrivial'], _outcome(d), False
+
+
+def as_written(prog, ref, summ):
+    """The reader's bus units and gate flag against the program text."""
+    dis = []
     if summ is not None:
         for key, want in (('outputs', ref['outs_desc']),
                           ('inputs', ref['ins_desc'])):
@@ -509,10 +647,10 @@ def check_x(prog):
             if [x[:2] + x[3:] for x in w] != [x[:2] + x[3:] for x in g]:
                 dis.append(('reader-bus-units-not-as-written', w[:6], g[:6],
                             key))
-        if summ['has_gate'] != (prog.get('params') in ('gate', 'mixed')):
+        if summ['has_gate'] != xg.has_gate(prog.get('params', 'none')):
             dis.append(('reader-gate-flag-not-as-written',
                         prog.get('params'), summ['has_gate'], ''))
-    return dis, ref['nontrivial'], _outcome(d), False
+    return dis
 
 
 # ---- typed enumeration ----------------------------------------------------
@@ -528,7 +666,31 @@ POOL_INS = ['sin', 'noise', 'in', 'pan', 'mul', 'add', 'lpf', 'seed', 'rid',
 PAR_TYPES = {'gate': [(['par', 'gate'], 'K')],
              'mixed': [(['par', 'gate'], 'K'), (['par', 'a'], 'A'),
                        (['par', 'freq', 1], 'K'), (['par', 'i'], 'K'),
-                       (['par', 'freq'], 'K3')]}
+                       (['par', 'freq'], 'K3')],
+             'lag': [(['par', 'gate'], 'K'), (['par', 'freq', 2], 'K'),
+                     (['par', 'amp'], 'K')],
+             'lag20': [(['par', 'freq', 0], 'K'), (['par', 'freq', 16], 'K'),
+                       (['par', 'freq', 19], 'K')],
+             'rates': [(['par', 'a'], 'K'), (['par', 'b'], 'K'),
+                       (['par', 'c'], 'A'), (['par', 'd'], 'K'),
+                       (['par', 'e'], 'A')],
+             'prepend': [(['par', 'freq'], 'K'), (['par', 'gate'], 'K')],
+             'wrap': [(['par', 'gate'], 'K'), (['par', 'freq'], 'K'),
+                      (['par', 'a'], 'A')],
+             'manual': [(['par', 'freq', 1], 'K'), (['par', 'a'], 'A'),
+                        (['par', 'l', 0], 'K'), (['par', 'i'], 'K')],
+             'defaults': [(['par', 'nd'], 'K'), (['par', 'n'], 'K'),
+                          (['par', 'b'], 'K'), (['par', 'k'], 'K')],
+             'specs': [(['par', 'freq'], 'K'), (['par', 'amp'], 'K'),
+                       (['par', 'gate'], 'K')]}
+BIN_KINDS = ['InFeedback', 'LagIn', 'InTrig', 'LocalIn.ar', 'LocalIn.kr',
+             'SoundIn']
+BIN_TYPES = {'InFeedback': 'A2', 'LagIn': 'K2', 'InTrig': 'K2',
+             'LocalIn.ar': 'A2', 'LocalIn.kr': 'K2', 'SoundIn': 'A'}
+OUT_CLASSES = ['Out', 'ReplaceOut', 'OffsetOut', 'XOut', 'LocalOut']
+POOL_BUS3 = ['sin', 'in', 'bin', 'pan', 'mul', 'sel', 'lpf']
+PARAM_ROUTES = ['lag', 'lag20', 'rates', 'prepend', 'wrap', 'manual',
+                'defaults', 'specs']
 
 
 def result_type(st, types):
@@ -544,6 +706,8 @@ def result_type(st, types):
         return 'N'
     if op == 'in':
         return 'A2' if st[1] == 'ar' else 'K2'
+    if op == 'bin':
+        return BIN_TYPES.get(st[1])
     if op == 'pan':
         return {'A': 'A2', 'A2': 'N'}.get(T(st[1]))
     if op in ('mul', 'add'):
@@ -572,9 +736,12 @@ def result_type(st, types):
     if op == 'ifft':
         return 'A' if T(st[1]) == 'C' else None
     if op == 'par':
-        for s, t in PAR_TYPES['mixed']:
-            if s == st:
-                return t
+        # the same statement is only generated for variants in which it is a
+        # single channel; the 3-channel ['par', 'freq'] of 'mixed' is never a
+        # generated statement
+        found = [t for lst in PAR_TYPES.values() for s, t in lst if s == st]
+        single = [t for t in found if t != 'K3']
+        return (single or found or [None])[0]
     if op == 'madd':
         def ok(a):
             return isinstance(a, (int, float)) or T(a) in ('A', 'K')
@@ -605,6 +772,8 @@ def statements_at(k, types, pool, params='none'):
             out.append([op])
         elif op == 'in':
             out += [['in', 'ar'], ['in', 'kr']]
+        elif op == 'bin':
+            out += [['bin', k] for k in BIN_KINDS]
         elif op == 'seed':
             out += [['seed', 'ir'], ['seed', 'kr']]
         elif op in ('pan', 'mul', 'add', 'lpf', 'set', 'clear', 'bufrd',
@@ -648,15 +817,16 @@ def out_modes(types, params):
         modes.insert(0, 'last')
     if any(t in ('A2', 'K2', 'N') for t in sig):
         modes.append('each1')
-    if params in ('gate', 'mixed'):
+    if xg.has_gate(params):
         modes.append('gatebus')
     return modes
 
 
 def xprograms(length, pools, params, shard, of, tagbase, slice_of=1,
-              slice_ix=0):
+              slice_ix=0, outcls=('Out',)):
     """All well-typed extended programs of exactly `length` statements whose
-    prefix index falls into this shard / slice."""
+    prefix index falls into this shard / slice, with every output option and
+    every output class of `outcls`."""
     def rec(k, prefix, types):
         if k == length - 1:
             yield prefix, types
@@ -675,8 +845,13 @@ def xprograms(length, pools, params, shard, of, tagbase, slice_of=1,
         for st in statements_at(k, types, pools[k], params):
             ts = types + [result_type(st, types)]
             for o in out_modes(ts, params):
-                yield {'x': 1, 'name': 'g', 'params': params,
-                       'stmts': prefix + [st], 'outs': o, 'tagbase': tagbase}
+                for oc in outcls:
+                    p = {'x': 1, 'name': 'g', 'params': params,
+                         'stmts': prefix + [st], 'outs': o,
+                         'tagbase': tagbase}
+                    if oc != 'Out':
+                        p['outcls'] = oc
+                    yield p
 
 
 SKELETONS = {
@@ -739,7 +914,8 @@ def work_x(job):
     if job['gen'] == 'len':
         it = xprograms(job['length'], job['pools'], job['params'],
                        job['shard'], job['of'], job['tagbase'],
-                       job.get('slice_of', 1), job.get('slice_ix', 0))
+                       job.get('slice_of', 1), job.get('slice_ix', 0),
+                       tuple(job.get('outcls', ('Out',))))
     else:
         it = skeleton_programs(job['skeleton'], job['m'], job['shard'],
                                job['of'], job['tagbase'],
@@ -761,7 +937,7 @@ def work_x(job):
 # (C) names
 # --------------------------------------------------------------------------
 
-NAME_LENGTHS_OK = [1, 2, 31, 32, 33, 254, 255]
+NAME_LENGTHS_OK = [1, 2, 29, 30, 31, 32, 33, 127, 128, 129, 254, 255]
 NAME_LENGTHS_BAD = [256, 257, 300, 511, 512]
 NAME_BASES = [
     {'params': 'none', 'stmts': [['sin', 'ar']], 'outs': 'each'},
@@ -770,7 +946,14 @@ NAME_BASES = [
     {'params': 'none', 'stmts': [['lbuf'], ['set', 'v0'], ['bufrd', 'v0']],
      'outs': 'each'},
 ]
-NAME_ALPHABETS = ['x', 'abcdefghijklmnopqrstuvwxyz_0123456789-.']
+NAME_ALPHABETS = ['x', 'abcdefghijklmnopqrstuvwxyz_0123456789-.',
+                  # every printable ASCII character, space first
+                  ''.join(chr(c) for c in range(0x20, 0x7f))]
+# control names: through the function signature (identifiers) and through
+# Control.add_name (any string)
+CTL_NAME_LENGTHS_OK = [1, 2, 31, 32, 33, 127, 128, 129, 254, 255]
+CTL_NAME_LENGTHS_BAD = [256, 257, 300]
+CTL_NAME_ALPHABETS = ['x', 'abcdefghijklmnopqrstuvwxyz_0123456789']
 
 
 def make_name(n, alpha):
@@ -788,10 +971,147 @@ def name_cases(tagbase):
                     out.append({'namecase': 1, 'len': n, 'alpha': ai,
                                 'base': bi, 'tagbase': tagbase,
                                 'variants': True})
-    return out
+    for n in CTL_NAME_LENGTHS_OK + CTL_NAME_LENGTHS_BAD:
+        for how, alphas in (('signature', CTL_NAME_ALPHABETS),
+                            ('add_name', CTL_NAME_ALPHABETS +
+                             NAME_ALPHABETS[2:])):
+            for ai in range(len(alphas)):
+                for rate in ('kr', 'ar'):
+                    out.append({'namecase': 1, 'ctl': how, 'len': n,
+                                'alpha': ai, 'rate': rate,
+                                'tagbase': tagbase})
+    return out + zero_cases(tagbase)
+
+
+ZERO_PATTERNS = [a + b + c for a in ('', 'S', '0', 'Z')
+                 for b in ('', 'S', '0', 'Z') for c in ('S', '0', 'Z')
+                 if not (a == '' and b != '')]
+
+
+def zero_cases(tagbase):
+    """Audio-rate outputs whose channel list holds the number zero (the
+    usual way to leave a channel silent): S = a signal, 0 = int 0, Z = 0.0."""
+    return [{'namecase': 1, 'zero': pat, 'outcls': oc, 'tagbase': tagbase}
+            for pat in ZERO_PATTERNS for oc in OUT_CLASSES]
+
+
+def check_zero(case):
+    """The definition must compile, be well-formed, feed only audio-rate
+    signals to the output unit and describe one output of len(pattern)
+    channels (how a zero becomes a signal is not decided here)."""
+    tb = float(case['tagbase'])
+    oc = case['outcls']
+    pat = case['zero']
+
+    def graph():
+        from sc3.synth.ugens import oscillators, inout
+        chans = [oscillators.SinOsc.ar(tb + 4.0 * i) if ch == 'S' else
+                 (0 if ch == '0' else 0.0) for i, ch in enumerate(pat)]
+        c = getattr(inout, oc)
+        if oc == 'XOut':
+            c.ar(tb + 64.0, tb + 65.0, chans)
+        elif oc == 'LocalOut':
+            c.ar(chans)
+        else:
+            c.ar(tb + 64.0, chans)
+    res = compile_def('g', graph)
+    if res[0] == 'raised':
+        e = res[2]
+        return [(f'valid-graph-rejected-{type(e).__name__}@{_where(e)}',
+                 'a compiled definition', repr(e)[:300],
+                 f'{oc}.ar with channels {pat}')], 'rejected'
+    _, sd, data = res
+    d, dis = decode_one(data, 'g')
+    if d is None or any(k == 'scgf-integrity' for k, *_ in dis):
+        return dis, 'malformed'
+    for kind, detail in xg.form_problems(d):
+        dis.append((kind, None, detail, ''))
+    outs = [u for u in d['units'] if u['name'] == oc]
+    nf = OUT_FIXED[oc]
+    shape = [[u['rate'], len(u['inputs']) - nf] for u in outs]
+    if shape != [[2, len(pat)]]:
+        dis.append(('output-unit-not-as-written', [[2, len(pat)]], shape,
+                    f'{oc}: [rate, channels]'))
+    rd, summ = reader_check(sd, data, d)
+    dis += rd
+    if summ is not None:
+        got = [x[:2] + x[3:] for x in summ['outputs']]
+        if got != [['audio', len(pat), oc]]:
+            dis.append(('reader-bus-units-not-as-written',
+                        [['audio', len(pat), oc]], got, 'outputs'))
+    return dis, ['ok', len(data), [u['name'] for u in d['units']]]
+
+
+def check_ctl_name(case):
+    """One parameter with a name of a critical length (and a second, short
+    one after it): the name must come back from the bytes and from the
+    reader, or - beyond 255 characters - the definition must be refused."""
+    alphas = CTL_NAME_ALPHABETS + NAME_ALPHABETS[2:]
+    cname = make_name(case['len'], alphas[case['alpha']])
+    tb = float(case['tagbase'])
+    ar = case['rate'] == 'ar'
+
+    def body(sig, z):
+        from sc3.synth.ugens import oscillators, inout
+        if ar:
+            inout.Out.ar(tb, oscillators.SinOsc.ar(tb + 4.0) * sig)
+        else:
+            inout.Out.kr(tb, oscillators.SinOsc.kr(sig))
+        inout.Out.kr(tb + 8.0, oscillators.SinOsc.kr(z))
+    if case['ctl'] == 'signature':
+        ns = {'body': body}
+        ann = ": 'ar'" if ar else ''
+        exec(f'def graph({cname}{ann}=0.5, z=0.25):\n'
+             f'    body({cname}, z)\n', ns)
+        graph = ns['graph']
+    else:
+        def graph():
+            from sc3.synth.ugens import inout
+            if ar:
+                inout.AudioControl.add_name(cname)
+                sig = inout.AudioControl.ar(0.5)
+            else:
+                inout.Control.add_name(cname)
+                sig = inout.Control.kr(0.5)
+            inout.Control.add_name('z')
+            body(sig, inout.Control.kr(0.25))
+    res = compile_def('g', graph)
+    if case['len'] > 255:
+        if res[0] == 'ok':
+            return [('control-name-over-255-accepted',
+                     'an exception (a pascal string holds 255 bytes)',
+                     f'{len(res[2])} bytes', '')], 'accepted'
+        if res[3]:
+            return [('bytes-after-exception', None,
+                     f'{len(res[3])} bytes after {res[2]!r}', '')], 'left'
+        return [], 'refused-' + res[1]
+    if res[0] == 'raised':
+        e = res[2]
+        return [('valid-control-name-rejected', 'a compiled definition',
+                 repr(e)[:200] + ' <- ' + repr(e.__cause__)[:200],
+                 f'control name of {case["len"]} characters, '
+                 f'stage {res[1]}')], 'rejected'
+    _, sd, data = res
+    d, dis = decode_one(data, 'g')
+    if d is None or any(k == 'scgf-integrity' for k, *_ in dis):
+        return dis, 'malformed'
+    for kind, detail in xg.form_problems(d):
+        dis.append((kind, None, detail, ''))
+    _, byname = xg.control_table(d)
+    want = {cname: [2 if ar else 1, [0.5]], 'z': [1, [0.25]]}
+    got = {k: [v[0], list(v[1])] for k, v in byname.items()}
+    if got != want:
+        dis.append(('parameters-differ-from-signature', want, got, ''))
+    rd, _ = reader_check(sd, data, d)
+    dis += rd
+    return dis, ['ok', len(data)]
 
 
 def check_name(case):
+    if case.get('zero'):
+        return check_zero(case)
+    if case.get('ctl'):
+        return check_ctl_name(case)
     name = make_name(case['len'], NAME_ALPHABETS[case['alpha']])
     prog = dict(NAME_BASES[case['base']], x=1, name=name,
                 tagbase=case['tagbase'])
@@ -842,8 +1162,550 @@ def work_names(job):
         dis, outcome = check_name(case)
         for kind, exp, obs, detail in dis:
             acc.violation(kind, case, exp, obs, detail)
-        acc.case(case, case['len'] in (31, 32, 33, 254, 255, 256, 257),
+        acc.case(case, case.get('len') in (30, 31, 32, 33, 127, 128, 254,
+                                           255, 256, 257) or
+                 '0' in case.get('zero', '') or 'Z' in case.get('zero', ''),
                  outcome)
+    return acc.result()
+
+
+# --------------------------------------------------------------------------
+# (R) emission routes: every way the library hands out / writes / sends the
+#     bytes of a definition, and every way it reads them back
+# --------------------------------------------------------------------------
+
+ROUTE_BASES = [
+    {'params': 'none', 'stmts': [['sin', 'ar']], 'outs': 'each'},
+    {'params': 'mixed', 'stmts': [['par', 'a'], ['mul', 'v0']],
+     'outs': 'gatebus', 'variants': True},
+    {'params': 'none', 'stmts': [['lbuf'], ['set', 'v0'], ['bufrd', 'v0'],
+                                 ['clear', 'v0'], ['bufrd', 'v0']],
+     'outs': 'each'},
+    {'params': 'lag', 'stmts': [['par', 'freq', 2], ['mul', 'v0']],
+     'outs': 'gatebus', 'variants': True},
+    {'params': 'specs', 'stmts': [['par', 'freq'], ['sin', 'ar']],
+     'outs': 'list'},
+    {'params': 'manual', 'stmts': [['par', 'l', 0], ['par', 'a']],
+     'outs': 'each'},
+    {'params': 'none', 'stmts': [['bin', 'LocalIn.ar'], ['sel', 'v0', 1],
+                                 ['pan', 'v1']],
+     'outs': 'each', 'outcls': 'XOut'},
+    {'params': 'none', 'stmts': [['sin', 'ar'], ['lbuf'],
+                                 ['fft', 'v1', 'v0'], ['pv', 'v2'],
+                                 ['ifft', 'v3']], 'outs': 'last'},
+]
+ROUTES = ['as_bytes-again', 'write_def_list', 'write_def_list-2',
+          'write_def_file', 'store', 'store-default-dir', 'load', 'add',
+          'add-nokeep', 'add-default', 'send', 'send-list', 'send-too-big',
+          'desc-send', 'lib-send', 'decorator', 'read-file',
+          'read-file-keep', 'lib-read', 'read-stream-keep',
+          'new_from-nokeep']
+ROUTE_VARIANTS = {'v': {'gate': 0.5}, 'w': {'freq': [8.0, 16.0]}}
+
+
+def route_cases(tagbase):
+    return [{'route': r, 'base': bi, 'cached': c, 'tagbase': tagbase}
+            for bi in range(len(ROUTE_BASES)) for r in ROUTES
+            for c in (False, True)]
+
+
+class _StubAddr:
+    is_local = True
+
+    def __init__(self, real, limit=None):
+        self._real = real
+        self._MAX_UDP_DGRAM_SIZE = limit if limit is not None else \
+            real._MAX_UDP_DGRAM_SIZE
+        self.sent = []
+
+    def _calc_msg_dgram_size(self, msg):
+        return self._real._calc_msg_dgram_size(msg)
+
+    def send_msg(self, *args):
+        self.sent.append(list(args))
+
+
+class _StubWatcher:
+    has_booted = True
+
+
+class _StubServer:
+    """Records what a definition sends instead of a server."""
+    name = 'stub'
+
+    def __init__(self, limit=None):
+        from sc3.synth.server import Server
+        self.addr = _StubAddr(Server.default.addr, limit)
+        self._status_watcher = _StubWatcher()
+
+    def __repr__(self):
+        return 'stub'
+
+
+def check_route(case):
+    """-> (disagreements, outcome).  Every byte string a route emits must be
+    one well-formed definition of the program; every description a route
+    produces must agree with the independent decoding of those bytes."""
+    import os
+    import tempfile
+    from sc3.base.main import main
+    from sc3.synth.synthdef import SynthDef, synthdef
+    from sc3.synth.synthdesc import SynthDesc, SynthDescLib
+    from sc3.synth.server import Server
+    from sc3.base import systemactions as sac
+
+    base = ROUTE_BASES[case['base']]
+    route = case['route']
+    variants = dict(ROUTE_VARIANTS) if base.get('variants') else None
+    prog = {k: v for k, v in base.items() if k != 'variants'}
+    prog.update(x=1, name='g', tagbase=case['tagbase'])
+    if route == 'decorator':
+        prog['name'] = 'graph'      # the decorated function's own name
+    ref = xg.interpret(prog)
+
+    def build(name=None):
+        graph = make_xfunction(prog, ref['plan'])
+        return SynthDef(name or prog['name'], graph, variants=variants,
+                        **xdef_kwargs(prog))
+
+    emitted = []      # (label, bytes, expected name)
+    descs = []        # (label, description)
+    dis = []
+    old_home = os.environ.get('HOME')
+    old_tmp = tempfile.tempdir
+    added_actions = []
+    stub = _StubServer(16 if route == 'send-too-big' else None)
+    lib = SynthDescLib('c02-routes', [stub])
+    deflib = SynthDescLib.get_lib('default')
+    deflib.synth_descs.pop(prog['name'], None)
+    sd = None
+    with tempfile.TemporaryDirectory(prefix='c02-route-') as tmp:
+        try:
+            if route != 'decorator':
+                sd = build()
+                if case['cached']:
+                    emitted.append(('as_bytes', bytes(sd.as_bytes()), 'g'))
+            fname = os.path.join(tmp, 'g.scsyndef')
+            done = ['/n_free', 1000]
+            if route == 'as_bytes-again':
+                emitted.append(('as_bytes', bytes(sd.as_bytes()), 'g'))
+                emitted.append(('as_bytes#2', bytes(sd.as_bytes()), 'g'))
+            elif route == 'write_def_list':
+                st = io.BytesIO()
+                SynthDef._write_def_list([sd], st)
+                emitted.append(('_write_def_list', st.getvalue(), 'g'))
+            elif route == 'write_def_list-2':
+                # a file of two definitions: both are checked on their own
+                sd2 = build('g2')
+                st = io.BytesIO()
+                SynthDef._write_def_list([sd, sd2], st)
+                try:
+                    dd = scgf.decode(st.getvalue())
+                    if len(dd['defs']) != 2:
+                        raise scgf.FormatError(f"{len(dd['defs'])} defs")
+                    for nm, d in zip(('g', 'g2'), dd['defs']):
+                        emitted.append((
+                            f'_write_def_list[{nm}]',
+                            scgf.encode(d) if not scgf.validate(d) and
+                            not any(c != c for c in d['constants'])
+                            else b'', nm))
+                    # the reader does not consume variant blocks, so what
+                    # follows a definition with variants is outside the
+                    # statement (one definition per emission): don't-care
+                    lst = SynthDesc._read_stream(io.BytesIO(st.getvalue())) \
+                        if not variants else None
+                    if lst is None:
+                        pass
+                    elif len(lst) != 2:
+                        dis.append(('reader-definition-count', 2, len(lst),
+                                    route))
+                    else:
+                        for nm, dsc in zip(('g', 'g2'), lst):
+                            descs.append((f'_read_stream[{nm}]', dsc))
+                except scgf.FormatError as e:
+                    dis.append(('scgf-unparsable', 'two SCgf v2 definitions',
+                                repr(e)[:300], route))
+            elif route == 'write_def_file':
+                sd._write_def_file(tmp)
+                emitted.append(('file', open(fname, 'rb').read(), 'g'))
+                descs.append(('default lib', deflib.synth_descs.get('g')))
+            elif route in ('store', 'store-default-dir'):
+                if route == 'store':
+                    sd.store('c02-routes', tmp, lambda srv: done)
+                else:
+                    os.environ['HOME'] = tmp
+                    ddir = os.path.join(
+                        tmp, '.local', 'share', 'SuperCollider', 'synthdefs')
+                    os.makedirs(ddir)
+                    from sc3.base import platform as plf
+                    if str(plf.Platform.synthdef_dir) != ddir:
+                        # another platform layout: use the explicit form
+                        ddir = tmp
+                        sd.store('c02-routes', tmp)
+                    else:
+                        sd.store('c02-routes')
+                    fname = os.path.join(ddir, 'g.scsyndef')
+                emitted.append(('file', open(fname, 'rb').read(), 'g'))
+                descs.append(('lib', lib.synth_descs.get('g')))
+            elif route == 'load':
+                sd.load(stub, done, tmp)
+                emitted.append(('file', open(fname, 'rb').read(), 'g'))
+                descs.append(('default lib', deflib.synth_descs.get('g')))
+            elif route in ('add', 'add-nokeep'):
+                sd.add('c02-routes', lambda srv: done,
+                       keep_def=route == 'add')
+                descs.append(('lib', lib.synth_descs.get('g')))
+            elif route == 'add-default':
+                Server.all.add(stub)
+                try:
+                    sd.add()
+                finally:
+                    Server.all.discard(stub)
+                descs.append(('default lib', deflib.synth_descs.get('g')))
+            elif route == 'send':
+                sd.send(stub, done)
+            elif route == 'send-list':
+                stub2 = _StubServer()
+                sd.send([stub, stub2])
+                stub.addr.sent += stub2.addr.sent
+            elif route == 'send-too-big':
+                tempfile.tempdir = tmp
+                sd.send(stub)
+                descs.append(('default lib', deflib.synth_descs.get('g')))
+            elif route == 'desc-send':
+                SynthDesc.new_from(sd).send(stub, done)
+            elif route == 'lib-send':
+                lib.add(SynthDesc.new_from(sd))
+                lib.send(stub)
+            elif route == 'decorator':
+                before = dict(sac.ServerBoot._servers.get('all', {}))
+                Server.all.add(stub)
+                try:
+                    graph = make_xfunction(prog, ref['plan'])
+                    kw = xdef_kwargs(prog)
+                    if variants:
+                        kw['variants'] = variants
+                    sd = synthdef(**kw)(graph) if (kw or case['cached']) \
+                        else synthdef(graph)
+                    for act in list(sac.ServerBoot._servers.get('all', {})):
+                        if act not in before:
+                            added_actions.append(act)
+                            sac.ServerBoot.remove('all', act)
+                    descs.append(('default lib',
+                                  deflib.synth_descs.get('graph')))
+                    # what the decorator registered for the next boot
+                    for act in added_actions:
+                        act(stub)
+                finally:
+                    Server.all.discard(stub)
+                    for act in list(sac.ServerBoot._servers.get('all', {})):
+                        if act not in before:
+                            sac.ServerBoot.remove('all', act)
+                emitted.append(('as_bytes', bytes(sd.as_bytes()), 'graph'))
+                descs.append(('default lib again',
+                              deflib.synth_descs.get('graph')))
+            elif route in ('read-file', 'read-file-keep', 'lib-read'):
+                with open(fname, 'wb') as f:
+                    SynthDef._write_def_list([sd], f)
+                emitted.append(('file', open(fname, 'rb').read(), 'g'))
+                if route == 'lib-read':
+                    lib.read(fname)
+                    descs.append(('lib.read', lib.synth_descs.get('g')))
+                else:
+                    lst = SynthDesc.read(fname,
+                                         keep_defs=route == 'read-file-keep')
+                    if len(lst) != 1:
+                        dis.append(('reader-definition-count', 1, len(lst),
+                                    route))
+                    else:
+                        descs.append(('SynthDesc.read', lst[0]))
+            elif route == 'read-stream-keep':
+                data = bytes(sd.as_bytes())
+                emitted.append(('as_bytes', data, 'g'))
+                lst = SynthDesc._read_stream(io.BytesIO(data), True)
+                if len(lst) != 1:
+                    dis.append(('reader-definition-count', 1, len(lst),
+                                route))
+                else:
+                    descs.append(('_read_stream(keep)', lst[0]))
+            elif route == 'new_from-nokeep':
+                descs.append(('new_from(nokeep)',
+                              SynthDesc.new_from(sd, keep_def=False)))
+                emitted.append(('as_bytes', bytes(sd.as_bytes()), 'g'))
+            else:
+                raise ValueError(route)
+            # what went to the servers
+            for msg in stub.addr.sent:
+                if msg[0] == '/d_recv':
+                    emitted.append(('/d_recv', bytes(msg[1]),
+                                    prog['name']))
+                elif msg[0] == '/d_load':
+                    try:
+                        emitted.append(('/d_load file',
+                                        open(msg[1], 'rb').read(),
+                                        prog['name']))
+                    except OSError as e:
+                        dis.append(('sent-file-missing', 'a definition file',
+                                    repr(e)[:200], route))
+            expect_sent = {'store': 1, 'store-default-dir': 1, 'load': 1,
+                           'add': 1, 'add-nokeep': 1, 'add-default': 1,
+                           'send': 1, 'send-list': 2, 'send-too-big': 1,
+                           'desc-send': 1, 'lib-send': 1,
+                           'decorator': 1 + len(added_actions)}
+            nsent = sum(1 for m in stub.addr.sent
+                        if m[0] in ('/d_recv', '/d_load'))
+            if nsent != expect_sent.get(route, 0):
+                dis.append(('route-definitions-sent',
+                            expect_sent.get(route, 0), nsent, route))
+        except Exception as e:
+            main._current_synthdef = None
+            dis.append((f'route-raises-{type(e).__name__}@{_where(e)}',
+                        'the route completes', repr(e)[:300],
+                        f'route {route}'))
+        finally:
+            if old_home is None:
+                os.environ.pop('HOME', None)
+            else:
+                os.environ['HOME'] = old_home
+            tempfile.tempdir = old_tmp
+            SynthDescLib.all.pop('c02-routes', None)
+            deflib.synth_descs.pop(prog['name'], None)
+    first = None
+    for label, data, name in emitted:
+        d, dd = decode_one(data, name)
+        dis += [(k, a, b, f'{route}: {label} {c}'.strip())
+                for k, a, b, c in dd]
+        if d is None or any(k == 'scgf-integrity' for k, *_ in dd):
+            continue
+        if first is None:
+            first = d
+        dis += [(k, a, b, f'{route}: {label} {c}'.strip())
+                for k, a, b, c in xg.compare(prog, ref, d)]
+        if variants:
+            got = sorted(v[0] for v in d['variants'])
+            want = sorted(f'{name}.{k}' for k in variants)
+            if got != want:
+                dis.append(('variant-blocks-differ', want, got,
+                            f'{route}: {label}'))
+    if first is not None:
+        for label, desc in descs:
+            if desc is None:
+                dis.append(('route-description-missing', 'a description',
+                            None, f'{route}: {label}'))
+                continue
+            want = expected_desc(first)
+            try:
+                got = _desc_summary(desc)
+            except Exception as e:
+                dis.append(('reader-rejects-bytes', 'a description',
+                            repr(e)[:300], f'{route}: {label}'))
+                continue
+            if label.endswith('[g2]'):
+                want = dict(want, name='g2')
+            dis += _cmp_desc(f'{route}: {label}', want, got)
+            dis += [(k, a, b, f'{route}: {label} {c}'.strip())
+                    for k, a, b, c in as_written(prog, ref, got)]
+    if sd is not None:
+        try:
+            gp.sd_bytes(sd)
+        except Exception:
+            pass
+    seen = []
+    out = []
+    for x in dis:
+        if x[0] not in seen:
+            seen.append(x[0])
+            # temporary directory names are not part of the observation
+            out.append(tuple(y.replace(tmp, '<tmp>') if isinstance(y, str)
+                             else y for y in x))
+    return out, [route, len(emitted), len(descs),
+                 core.digest([e[1].hex() for e in emitted])]
+
+
+def work_routes(job):
+    acc = progenum.Acc()
+    for i, case in enumerate(route_cases(job['tagbase'])):
+        if i % job['of'] != job['shard']:
+            continue
+        dis, outcome = check_route(case)
+        for kind, exp, obs, detail in dis:
+            acc.violation(kind, case, exp, obs, detail)
+        acc.case(case, True, outcome)
+    return acc.result()
+
+
+# --------------------------------------------------------------------------
+# (Z) the unit zoo: one call of every constructor of every installed unit
+#     class with every word of argument kinds (mc/oracles/zoo.py)
+# --------------------------------------------------------------------------
+
+def _zoo_params(cls, method):
+    """(names of parameters without default, all positional names) or None
+    if the constructor does not exist / takes no plain parameters."""
+    import inspect
+    f = getattr(cls, method, None)
+    if f is None:
+        return None
+    try:
+        ps = list(inspect.signature(f).parameters.values())
+    except (TypeError, ValueError):
+        return None
+    plain = [p for p in ps if p.kind in (p.POSITIONAL_OR_KEYWORD,
+                                         p.POSITIONAL_ONLY)]
+    return ([p.name for p in plain if p.default is inspect.Parameter.empty],
+            [p.name for p in plain])
+
+
+def zoo_cases(tagbase, shard=0, of=1):
+    """All zoo cases of this shard (constructors are dealt round-robin)."""
+    from sc3.synth import ugens as ugns
+    out = []
+
+    def add(cname, method, word, ov):
+        out.append({'zoo': 1, 'cls': cname, 'm': method, 'req': word,
+                    'ov': ov, 'tagbase': tagbase})
+    for i, (cname, method) in enumerate(zoo.ZOO):
+        if i % of != shard:
+            continue
+        cls = ugns.installed_ugens.get(cname)
+        pr = _zoo_params(cls, method) if cls is not None else None
+        if pr is None:
+            add(cname, method, '', [])
+            continue
+        req, names = pr
+        # Z1: every word over the parameters without default
+        for w in zoo.words(len(req)):
+            add(cname, method, w, [])
+        base = [a * len(req) for a in zoo.OVERRIDE_BASES]
+        if not req:
+            base = ['']
+        # Z2: the first parameter overridden by every letter
+        if names and names[0] not in req:
+            for a in zoo.ALPHABET:
+                add(cname, method, base[0], [[0, a]])
+        # Z3: every later parameter overridden by NaN / a string / a list,
+        # the first one as it is or a demand / control / audio signal
+        for j in range(1, len(names)):
+            for w in base:
+                for a in zoo.LATER_LETTERS:
+                    add(cname, method, w, [[j, a]])
+                for f in zoo.FIRST_WITH_NAN:
+                    add(cname, method, w, [[0, f], [j, 'N']])
+    return out
+
+
+def _zoo_value(letter, t):
+    from sc3.synth.ugens import oscillators, demand, bufio, fft
+    if letter == 'A':
+        return oscillators.SinOsc.ar(t)
+    if letter == 'K':
+        return oscillators.SinOsc.kr(t)
+    if letter == 'C':
+        return t
+    if letter == 'I':
+        return 2
+    if letter == 'L':
+        return [oscillators.SinOsc.ar(t), oscillators.SinOsc.ar(t + 1.0)]
+    if letter == 'D':
+        return demand.Dseq.dr([t, t + 1.0], 2)
+    if letter == 'B':
+        return bufio.LocalBuf.new(64, 1)
+    if letter == 'F':
+        return fft.FFT.kr(bufio.LocalBuf.new(64, 1),
+                          oscillators.SinOsc.ar(t))
+    if letter == 'S':
+        return 'abc'
+    if letter == 'N':
+        return float('nan')
+    raise ValueError(letter)
+
+
+def make_zoo_function(case):
+    def graph():
+        from sc3.synth import ugens as ugns
+        from sc3.synth import ugen as ugn
+        from sc3.synth.ugens import inout, demand, oscillators
+        cls = ugns.installed_ugens[case['cls']]
+        req, names = _zoo_params(cls, case['m'])
+        if len(req) != len(case['req']):
+            raise TypeError('the constructor takes other parameters now')
+        tb = float(case['tagbase'])
+        kwargs = {}
+        for j, (nm, a) in enumerate(zip(req, case['req'])):
+            kwargs[nm] = _zoo_value(a, tb + 4 * j)
+        for j, a in case.get('ov') or []:
+            kwargs[names[j]] = _zoo_value(a, tb + 64 + 4 * j)
+        r = getattr(cls, case['m'])(**kwargs)
+        # everything the call returned goes to a bus
+        sigs = [x for x in RealBackend.flatten(None, r)
+                if isinstance(x, ugn.SynthObject)]
+        dem = [x for x in sigs if x.rate == 'demand']
+        sigs = [x for x in sigs if x.rate != 'demand']
+        if dem:
+            sigs += ugn.ChannelList(demand.Demand.kr(
+                oscillators.Impulse.kr(1), 0, dem))
+        if not sigs:
+            return
+        if all(x.rate == 'audio' for x in sigs):
+            inout.Out.ar(tb + 100, sigs)
+        else:
+            inout.Out.kr(tb + 100, sigs)
+    return graph
+
+
+def zoo_form_problems(d):
+    """The class-independent part of the form rules."""
+    keep = ('control-slot-out-of-range', 'control-slots-not-tiled',
+            'nan-constant', 'control-unit-has-inputs',
+            'lag-count-differs-from-control-count', 'out-without-bus')
+    return [(k, det) for k, det in xg.form_problems(d) if k in keep]
+
+
+def check_zoo(case):
+    """-> (disagreements, outcome, nontrivial); kinds are 'zoo-<kind>' or
+    'zoo-<kind>@<group>' for the classes of zoo.KIND_GROUP."""
+    dis, outcome, nt = _check_zoo(case)
+    grp = zoo.KIND_GROUP.get(case['cls'])
+    sfx = f'@{grp}' if grp else ''
+    return [(f'zoo-{k}{sfx}', a, b, c) for k, a, b, c in dis], outcome, nt
+
+
+def _check_zoo(case):
+    import contextlib
+    with contextlib.redirect_stdout(io.StringIO()):
+        res = compile_def('g', make_zoo_function(case))
+    if res[0] == 'raised':
+        if res[3]:
+            return [('bytes-after-exception', 'no bytes',
+                     f'{len(res[3])} bytes after {res[2]!r}', '')], \
+                'left', False
+        return [], f'raised-{res[1]}-{type(res[2]).__name__}', False
+    _, sd, data = res
+    d, dis = decode_one(data, 'g')
+    if d is None or any(k == 'scgf-integrity' for k, *_ in dis):
+        return dis, 'malformed', True
+    for kind, detail in zoo_form_problems(d):
+        dis.append((kind, None, detail, ''))
+    rd, _ = reader_check(sd, data, d)
+    dis += rd
+    names = [u['name'] for u in d['units']]
+    return dis, [len(data), names[:12]], case['cls'] in names
+
+
+def work_zoo(job):
+    acc = progenum.Acc()
+    for case in zoo_cases(job['tagbase'], job['shard'], job['of']):
+        dis, outcome, nt = check_zoo(case)
+        for kind, exp, obs, detail in dis:
+            acc.violation(kind, case, exp, obs, detail,
+                          size=len(case['req']) * 1000 +
+                          500 * len(case.get('ov') or []) +
+                          len(core.canon(case)))
+        acc.case(case, nt, outcome)
+        if isinstance(outcome, str):
+            acc.count('zoo_' + outcome.split('-')[0])
+        else:
+            acc.count('zoo_compiled')
     return acc.result()
 
 
@@ -855,7 +1717,8 @@ SCALES_Q = [1, 2, 3, 10, 100]
 SCALES_T = [1, 2, 3, 10, 100, 300]
 FAMILIES = ['chain-lpf', 'chain-mul', 'chain-add', 'chain-dead', 'sum-chain',
             'fan-out', 'fan-in', 'consts', 'expand', 'controls',
-            'seed-noise', 'localbufs', 'pan-tree']
+            'seed-noise', 'localbufs', 'pan-tree', 'named-controls',
+            'lag-controls']
 
 
 def family_prog(fam, n, tagbase):
@@ -893,6 +1756,18 @@ def family_prog(fam, n, tagbase):
     elif fam == 'controls':
         p['params'] = f'arr{n}'
         st = [['par', 'freq']]
+        p['outs'] = 'each'
+    elif fam == 'named-controls':
+        # N single parameters of cycling kinds (a definition holds at most
+        # 255 parameter names)
+        m = min(n, 255)
+        p['params'] = f'named{m}'
+        st = [['par', 'p0'], ['par', f'p{m - 1}'], ['par', f'p{m // 2}']]
+        p['outs'] = 'each'
+    elif fam == 'lag-controls':
+        # one lagged array parameter of N values (lag units hold 16 each)
+        p['params'] = f'lagarr{n}'
+        st = [['par', 'freq', 0], ['par', 'freq', n - 1]]
         p['outs'] = 'each'
     elif fam == 'seed-noise':
         st = []
@@ -941,14 +1816,18 @@ def work_scaled(job):
 # (E) single-fault enumeration: invalid graphs must be rejected
 # --------------------------------------------------------------------------
 
-FAULT_VALUES = ['nan', 'str', 'none', 'empty', 'tuple']
-SLOTS = {'sin': 1, 'noise': 1, 'nest': 1, 'in': 1, 'pan': 2, 'mul': 2,
+FAULT_VALUES = ['nan', 'str', 'none', 'empty', 'tuple', 'ctuple', 'huge']
+# values the statement does not force to be refused: an exception or a
+# well-formed definition
+FAULT_MAY_COMPILE = ('empty', 'tuple', 'ctuple', 'huge')
+SLOTS = {'sin': 1, 'noise': 1, 'nest': 1, 'in': 1, 'bin': 1, 'pan': 2, 'mul': 2,
          'add': 2, 'mul2': 2, 'add2': 2, 'lpf': 2, 'seed': 1, 'rid': 1,
          'lbuf': 1, 'set': 2, 'clear': 1, 'bufrd': 2, 'fft': 3, 'pv': 2,
          'ifft': 2, 'madd': 3, 'sum3': 3, 'sel': 0, 'par': 0, 'num': 0}
 AUDIO_SLOTS = {'lpf': [0], 'pan': [0]}
 POOL_E = ['sin', 'noise', 'nest', 'in', 'pan', 'mul', 'add', 'mul2', 'lpf',
           'seed', 'rid', 'lbuf', 'set', 'clear', 'bufrd', 'madd', 'sum3']
+POOL_E_BUS = ['sin', 'in', 'bin']
 
 
 def fault_bases(tagbase):
@@ -961,10 +1840,19 @@ def fault_bases(tagbase):
                               tagbase):
             if prog['outs'] in ('each', 'list'):
                 bases.append(prog)
+    # the other bus readers and every output class
+    for prog in xprograms(1, [POOL_E_BUS], 'none', 0, 1, tagbase,
+                          outcls=tuple(OUT_CLASSES)):
+        if prog['outs'] in ('each', 'list') and (
+                prog.get('outcls') or prog['stmts'][0][0] == 'bin'):
+            bases.append(prog)
     for name, sk in sorted(SKELETONS.items()):
         for o in ('each', 'list'):
             bases.append({'x': 1, 'name': 'g', 'params': 'none',
                           'stmts': sk, 'outs': o, 'tagbase': tagbase})
+    bases.append({'x': 1, 'name': 'g', 'params': 'none',
+                  'stmts': SKELETONS['multiout'], 'outs': 'each',
+                  'outcls': 'XOut', 'tagbase': tagbase})
     bases.append({'x': 1, 'name': 'g', 'params': 'mixed',
                   'stmts': [['par', 'a'], ['lpf', 'v0'], ['par', 'gate']],
                   'outs': 'each', 'tagbase': tagbase})
@@ -978,6 +1866,7 @@ def fault_cases(base):
     except xg.IllTyped:
         return []
     out = []
+    outcls = base.get('outcls', 'Out')
     for k, st in enumerate(base['stmts']):
         for slot in range(SLOTS[st[0]]):
             for v in FAULT_VALUES:
@@ -989,8 +1878,12 @@ def fault_cases(base):
     for oi, rate in enumerate(ref['plan']):
         nch = 1
         for v in FAULT_VALUES:
-            out.append(dict(base, fault={'at': 'out', 'index': oi,
-                                         'slot': 'bus', 'value': v}))
+            if outcls != 'LocalOut':        # it has no bus argument
+                out.append(dict(base, fault={'at': 'out', 'index': oi,
+                                             'slot': 'bus', 'value': v}))
+            if outcls == 'XOut':
+                out.append(dict(base, fault={'at': 'out', 'index': oi,
+                                             'slot': 'xfade', 'value': v}))
             out.append(dict(base, fault={'at': 'out', 'index': oi,
                                          'slot': 0, 'value': v}))
         if rate == 'ar':
@@ -999,6 +1892,10 @@ def fault_cases(base):
     if ref['plan'] and ref['plan'][-1] == 'kr' and base['outs'] == 'each' \
             and len(ref['plan']) == 1:
         out.append(dict(base, outs='force_ar'))
+        if outcls == 'Out':
+            # a control-rate signal into the class without control-rate form
+            out.append(dict(base, outcls='OffsetOut',
+                            fault={'at': 'none', 'value': 'offsetout-kr'}))
     return out
 
 
@@ -1025,7 +1922,7 @@ def check_fault(prog):
         e = res[2]
         return [], f'raised-{res[1]}-{type(e).__name__}'
     _, sd, data = res
-    if f['value'] not in ('empty', 'tuple'):
+    if f['value'] not in FAULT_MAY_COMPILE:
         d = None
         try:
             d = scgf.decode(data)['defs'][0]
@@ -1040,13 +1937,15 @@ def check_fault(prog):
         return [(f'{fk}-input-compiled-malformed', 'an exception or a '
                  'well-formed definition', dis[0][2], f'fault {f}')], \
             'malformed'
-    if fk == 'tuple':
-        return [], 'tuple-compiled-wellformed'
+    if fk != 'empty':
+        return [], f'{fk}-compiled-wellformed'
     dis = [(f'empty-list-compiled-{k}', a, b, c)
            for k, a, b, c in
            [(k, None, det, '') for k, det in xg.form_problems(d)]]
     rd, _ = reader_check(sd, data, d)
-    dis += [(f'empty-list-compiled-{k}', a, b, c) for k, a, b, c in rd
+    dis += [(f'empty-list-compiled-{k}' +
+             ('@' + c.split('@')[-1] if k == 'reader-rejects-bytes' and
+              '@' in c else ''), a, b, c) for k, a, b, c in rd
             if k != 'reader-bus-start-channel-differs']
     return dis, 'empty-compiled-wellformed'
 
@@ -1072,7 +1971,11 @@ def work_faults(job):
 
 def replay(job):
     case = job['case']
-    if 'namecase' in case:
+    if 'zoo' in case:
+        dis, observed, _ = check_zoo(case)
+    elif 'route' in case:
+        dis, observed = check_route(case)
+    elif 'namecase' in case:
         dis, observed = check_name(case)
     elif 'family' in case:
         dis, observed = check_scaled(case)
@@ -1082,8 +1985,11 @@ def replay(job):
         dis, _, observed, _ = check_x(case)
     else:
         dis, _, observed, _ = check_gp(case)
+    def stable(x):
+        # object addresses in library reprs differ between processes
+        return re.sub(r'0x[0-9a-fA-F]+', '0x..', repr(x)[:500])
     return {'violates': any(d[0] == job['kind'] for d in dis),
-            'disagreements': [[d[0], repr(d[1])[:500], repr(d[2])[:500]]
+            'disagreements': [[d[0], stable(d[1]), stable(d[2])]
                               for d in dis],
             'observed': observed if not isinstance(observed, list)
             else observed[:40]}
@@ -1101,7 +2007,42 @@ def _bus_zero(v, **_):
         for a, b in diff)
 
 
-PREDICATES = {'bus_zero_reported_unknown': _bus_zero}
+def _route_in(v, routes=(), text=''):
+    """Known finding predicate: a route case of one of `routes` whose
+    observation contains `text`."""
+    c = v.get('case') or {}
+    return c.get('route') in routes and text in str(v.get('observed'))
+
+
+def _zoo_class_in(v, classes=(), text='', first=None, methods=None):
+    """Known finding predicate: a zoo case of one of `classes` (optionally:
+    constructor in `methods`, first parameter overridden by letter `first`)
+    whose observation contains `text`."""
+    c = v.get('case') or {}
+    if not c.get('zoo') or c.get('cls') not in classes:
+        return False
+    if methods is not None and c.get('m') not in methods:
+        return False
+    if first is not None and [0, first] not in (c.get('ov') or []):
+        return False
+    return text in str(v.get('observed'))
+
+
+def _empty_localin(v, **_):
+    """Known finding predicate: the empty list is the default argument of a
+    LocalIn."""
+    c = v.get('case') or {}
+    f = c.get('fault') or {}
+    at = f.get('at')
+    return f.get('value') == 'empty' and isinstance(at, int) and \
+        c['stmts'][at][0] == 'bin' and \
+        c['stmts'][at][1].startswith('LocalIn') and \
+        'IndexError' in str(v.get('observed'))
+
+
+PREDICATES = {'bus_zero_reported_unknown': _bus_zero,
+              'empty_localin_default': _empty_localin,
+              'route_in': _route_in, 'zoo_class_in': _zoo_class_in}
 
 
 def main(ctx):
@@ -1114,13 +2055,30 @@ def main(ctx):
         'real SynthDef; bytes are parsed strictly, checked for reference '
         'integrity, count/rate/output consistency, side-effecting units and '
         'width-first order against the AST, and read back by SynthDesc. '
-        'E4: every single fault (nan, str, None, [], control-rate signal '
-        'where audio is required) of every base program must raise. '
+        'Every bus unit class (Out, ReplaceOut, OffsetOut, XOut, LocalOut; '
+        'In, InFeedback, LagIn, InTrig, LocalIn, SoundIn) and every way to '
+        'declare parameters (annotations, rates= with lags, prepend=, '
+        'SynthDef.wrap, Control.add_name, missing/None/bool/int defaults, '
+        'metadata specs) is a dimension of the program space. Routes: every '
+        'way the library emits (as_bytes twice, _write_def_list, '
+        '_write_def_file, store, load, add, send, the too-big file '
+        'fallback, SynthDesc.send, SynthDescLib.send, @synthdef) or reads '
+        '(SynthDesc.read, SynthDescLib.read, _read_stream, new_from with '
+        'and without keep_def) a definition, fresh and after as_bytes, is '
+        'held to the same rules. Zoo: every rate constructor of every '
+        'installed unit class is called once with every word of argument '
+        'kinds (mc/oracles/zoo.py); it must raise and leave no bytes, or '
+        'emit one strictly parsable, reference-intact definition without '
+        'NaN constant that the reader accepts. '
+        'E4: every single fault (nan, str, None, [], tuples, 1e39, '
+        'control-rate signal where audio is required, OffsetOut.kr) of every '
+        'base program must raise. '
         'Distinct = literally different case. Non-trivial = C01 rule for C01 '
         'programs; for extended programs a width-first unit with units '
         'created before and after it, a multi-output unit, nested '
         'expansion, dead code or an optimiser rewrite; names at a length '
-        'limit; families with N >= 3; every fault case.')
+        'limit; families with N >= 3; every fault and route case; zoo '
+        'cases that compile to a definition containing the unit.')
     ctx.assumptions += [
         'independent decoder mc/oracles/scgf.py (SCgf v2 reference) and '
         'reference run mc/oracles/xgraph.py (input order of the unit classes '
@@ -1129,15 +2087,24 @@ def main(ctx):
         'its statement (units without a tag are ordered only by wiring)',
         'the reader is compared with the independent decoding of the same '
         'bytes; order of bus descriptors and of control_names is not '
-        'demanded; an empty channel list may compile if the result is '
-        'well-formed']
+        'demanded; an empty channel list, a tuple or 1e39 may compile if '
+        'the result is well-formed',
+        'the starting channel of LocalIn/LocalOut descriptors, the default '
+        'of a None parameter that has a metadata spec, and reading a file of '
+        'several definitions after one with variants are not decided by the '
+        'statement (accepted as they are)',
+        'routes use a recording stand-in for the server object (addr.'
+        'send_msg, _calc_msg_dgram_size of the real NetAddr) and temporary '
+        'directories (HOME / tempfile.tempdir are redirected for the '
+        'default-directory and too-big routes)']
     tagbase = 128 + 64 * (ctx.seed % 4)
     quick = ctx.tier == 'quick'
     gtag = 100 + 32 * (ctx.seed % 4)
 
     progenum.run(ctx, MODNAME, 'work_names',
                  [{'shard': i, 'of': 8, 'tagbase': tagbase}
-                  for i in range(8)], bound='names')
+                  for i in range(8)],
+                 bound='names, control names, zero channels')
     scales = SCALES_Q if quick else SCALES_T
     cases = [{'family': f, 'n': n, 'tagbase': tagbase}
              for n in scales for f in FAMILIES]
@@ -1150,6 +2117,14 @@ def main(ctx):
         'not exhaustive in N: N in ' + str(scales) + ' for ' +
         ', '.join(FAMILIES))
 
+    progenum.run(ctx, MODNAME, 'work_routes',
+                 [{'shard': i, 'of': 16, 'tagbase': tagbase}
+                  for i in range(16)],
+                 bound='emission and reading routes x bases x cached/fresh')
+    progenum.run(ctx, MODNAME, 'work_zoo',
+                 [{'shard': i, 'of': 64, 'tagbase': tagbase}
+                  for i in range(64)],
+                 bound='unit zoo: every constructor x argument words')
     NS = 64
     progenum.run(ctx, MODNAME, 'work_faults',
                  [{'shard': i, 'of': NS, 'tagbase': tagbase}
@@ -1192,6 +2167,40 @@ def main(ctx):
                       for i in range(16)],
                      bound=f'extended programs with parameters ({params}), '
                            '2 statements')
+    # bus unit classes: the other readers and every output class
+    for length in (1, 2):
+        progenum.run(ctx, MODNAME, 'work_x',
+                     [{'gen': 'len', 'length': length,
+                       'pools': [POOL_FULL + ['bin']] * length,
+                       'params': 'none', 'outcls': OUT_CLASSES,
+                       'shard': i, 'of': 16, 'tagbase': tagbase}
+                      for i in range(16 if length > 1 else 1)],
+                     bound=f'extended programs with all bus unit classes, '
+                           f'{length} statements')
+    k3 = 4 if quick else 1
+    progenum.run(ctx, MODNAME, 'work_x',
+                 [{'gen': 'len', 'length': 3, 'pools': [POOL_BUS3] * 3,
+                   'params': 'none', 'outcls': OUT_CLASSES[1:],
+                   'shard': i, 'of': NS, 'tagbase': tagbase,
+                   'slice_of': k3,
+                   'slice_ix': core.pick_slice(ctx.seed, k3)}
+                  for i in range(NS)],
+                 bound='extended programs with the other bus unit classes, '
+                       '3 statements, reduced pool' +
+                       (f', 1/{k3} slice chosen by seed (not exhaustive)'
+                        if k3 > 1 else ''))
+    # the other ways to declare parameters
+    for params in PARAM_ROUTES:
+        for length in (1, 2) if quick else (1, 2, 3):
+            progenum.run(ctx, MODNAME, 'work_x',
+                         [{'gen': 'len', 'length': length,
+                           'pools': [POOL_FULL] * length, 'params': params,
+                           'shard': i, 'of': 16 if length < 3 else NS,
+                           'tagbase': tagbase}
+                          for i in range((16 if length < 3 else NS)
+                                         if length > 1 else 1)],
+                         bound=f'extended programs with parameters '
+                               f'({params}), {length} statements')
     for name in sorted(SKELETONS):
         for m in (0, 1):
             progenum.run(ctx, MODNAME, 'work_x',
@@ -1221,14 +2230,19 @@ def main(ctx):
                      bound=f'extended programs, 4 statements, 1/{k} slice '
                            'chosen by seed (not exhaustive)')
         ctx.extra['exhaustive_bounds'] = [
-            'names', 'single faults', 'C01 programs 1 statement',
+            'names', 'routes', 'unit zoo', 'single faults',
+            'C01 programs 1 statement',
             'extended programs <= 3 statements',
-            'extended programs with parameters 2 statements',
+            'extended programs with all bus unit classes <= 2 statements',
+            'extended programs with parameters <= 2 statements (10 ways to '
+            'declare them)',
             'skeletons + <= 1 inserted statement']
         ctx.extra['sampled_slices'] = [
             'C01 programs 2 statements: 1/8 of the prefixes',
             'skeletons + 2 inserted statements: 1/16',
-            'extended programs 4 statements: 1/4 of the prefixes']
+            'extended programs 4 statements: 1/4 of the prefixes',
+            'extended programs with the other bus unit classes 3 '
+            'statements: 1/4 of the prefixes']
     else:
         for name in sorted(SKELETONS):
             progenum.run(ctx, MODNAME, 'work_x',
@@ -1249,8 +2263,13 @@ def main(ctx):
                       for i in range(1024)],
                      bound='extended programs, 5 statements, reduced pool')
         ctx.extra['exhaustive_bounds'] = [
-            'names', 'single faults', 'C01 programs <= 2 statements',
+            'names', 'routes', 'unit zoo', 'single faults',
+            'C01 programs <= 2 statements',
             'extended programs <= 4 statements (full pool), 5 statements '
             '(pool sin, in, pan, mul, add, lpf, seed, lbuf, fft, ifft)',
-            'extended programs with parameters 2 statements',
+            'extended programs with all bus unit classes <= 2 statements, '
+            '3 statements (pool sin, in, bin, pan, mul, sel, lpf)',
+            'extended programs with parameters: gate, mixed 2 statements; '
+            'lag, lag20, rates, prepend, wrap, manual, defaults, specs '
+            '<= 3 statements',
             'skeletons + <= 2 inserted statements']
